@@ -91,6 +91,27 @@ def is_sym(x):
         return isinstance(x, _SymbolicValue)
 
 
+def C(name):
+    """one symbolic character (any Unicode code point) as a CrossHair str of CONCRETE length 1"""
+    if REPLAY is not None:
+        if name not in REPLAY:
+            raise MissingWitness(name)
+        v = str(REPLAY[name])
+        _CREATED.append((name, v))
+        return v
+    if name in FIX:
+        v = str(FIX[name])
+        _CREATED.append((name, v))
+        return v
+    with NoTracing():
+        sp = context_statespace()
+        cp = SymbolicInt(name + '_' + str(sp.uniq()))
+        sp.add(z3.And(cp.var >= 0, cp.var <= 0x10FFFF))
+        s = LazyIntSymbolicStr([cp])
+        _CREATED.append((name, s))
+        return s
+
+
 def zv(x):
     """z3 term of a symbolic or concrete real/int (call under NoTracing)."""
     if isinstance(x, _SymbolicValue):
